@@ -46,13 +46,109 @@ COMPONENTS = {"real": ["_dilation.manager/connector/connection"],
 
 
 def configs(tier):
-    return [{"staged": False}, {"staged": None}]
+    # the third configuration: a long session with 6..12 losses (the control
+    # messages' dilate-N counter passes 10)
+    return [{"staged": False}, {"staged": None},
+            {"staged": False, "long_session": True},
+            {"e2e": True}]
+
+
+def run_e2e(seed, tape, opts):
+    """The same convergence question end to end: two real wormholes with
+    Dilation over the real mailbox server (control messages travel as
+    dilate-N phases through Boss/Mailbox), the peer link lost 5..9 times in
+    one session, told to both sides or to one side first."""
+    from checks import common_a as ca
+    from worlds.mailbox import MailboxWorld
+    w = MailboxWorld(tape, dict(opts, spake="stub"))
+    sim = w.sim
+    sim.no_advance_while_connecting = True
+    sim.allow_advance = False
+    a = w.add_client("A", api="deferred", dilation=True)
+    b = w.add_client("B", api="deferred", dilation=True)
+    code = ca.fixed_code(tape)
+    a.script = [("set_code", code), ("dilate", {"no_listen":
+                                                tape.choose(3, "nla") == 0})]
+    b.script = [("set_code", code), ("dilate", {})]
+    viol = []
+
+    def mgr(c):
+        return c.w._boss._D._manager
+
+    def conns():
+        ma, mb = mgr(a), mgr(b)
+        if ma is None or mb is None:
+            return None
+        if ma._connection is None or mb._connection is None:
+            return None
+        return (ma._connection, mb._connection)
+    sim.run(8000, until=lambda: conns() is not None, max_time=300)
+    if conns() is None:
+        raise cc.HarnessError("e2e: first dilation connection not made")
+    nloss = 5 + tape.choose(5, "nloss")
+    done_losses = 0
+    for i in range(nloss):
+        old = conns()
+        tell = tape.pick((("c", "s"), ("c", "s"), ("c",), ("s",)), "tell")
+        live = [l for l in sim.net.links if l.mode == "stream" and l.up and
+                all(e.alive and e.made for e in l.ends)]
+        for l in live:
+            sim.net.cut(l, tell)
+        sim.note("fault.cut")
+        sim.ev("peer_links_cut", i, "".join(tell))
+        if len(tell) == 1:
+            sim.run(tape.choose(40, "gap"), max_time=5)
+            for l in live:
+                sim.net.reveal(l)
+        sim.run(12000, until=lambda: conns() is not None and
+                conns()[0] is not old[0] and conns()[1] is not old[1] or
+                bool(a.closed_results or b.closed_results or a.saw_failure or
+                     b.saw_failure), max_time=300)
+        c2 = conns()
+        if a.closed_results or b.closed_results or a.saw_failure or \
+                b.saw_failure:
+            viol.append({"key": "C11.e2e_wormhole_failed", "clause": "after "
+                         "any loss the two sides converge on a new shared "
+                         "connection", "detail": "after loss #%d a wormhole "
+                         "failed: %r / %r" % (i + 1, a.events[-2:],
+                                              b.events[-2:])})
+            break
+        if c2 is None or c2[0] is old[0] or c2[1] is old[1]:
+            viol.append({"key": "C11.no_convergence", "clause": "after any "
+                         "loss of the connection in use the two sides "
+                         "converge on a new shared connection without "
+                         "deadlock", "detail": "end to end: after loss #%d "
+                         "(told %r) no new shared connection within 12000 "
+                         "events / 300 s; manager states %s / %s" %
+                         (i + 1, tell, _st(mgr(a)), _st(mgr(b)))})
+            break
+        done_losses += 1
+    for c in (a, b):
+        c.do_close()
+    sim.run(4000, until=lambda: a.is_closed and b.is_closed, max_time=200)
+    w.finish()
+    return ca.result(sim, w, viol[0] if viol else None, done_losses >= 1,
+                     seed, extra_sample={"e2e": True, "losses": nloss,
+                                         "reconverged": done_losses})
+
+
+def _st(m):
+    for k in ("_state", "_manager_state"):
+        if hasattr(m, k):
+            return getattr(m, k)
+    c = m._connection
+    return "conn=%s gen=%s" % ("yes" if c else "no",
+                               getattr(m, "_next_dilation_generation", "?"))
 
 
 def run_one(seed, tape, opts):
+    if opts.get("e2e"):
+        return run_e2e(seed, tape, opts)
     w = cc.setup(tape, opts, relay_ok=False)
     sim = w.sim
-    faults = cc.L2Faults(w, tape, tape.choose(6, "fb"))
+    faults = cc.L2Faults(w, tape, 6 + tape.choose(7, "fb2")
+                         if opts.get("long_session") else
+                         tape.choose(6, "fb"))
     started = set()
     delay = {"A": tape.choose(40, "da"), "B": tape.choose(40, "db")}
 
